@@ -252,7 +252,7 @@ class MultiLevelTransform(CompositeTransform):
             transform = transforms[0]
             mat = as_homogeneous_matrix(transform.tensor())
             for transform in transforms[1:]:
-                mat += as_homogeneous_matrix(transform.tensor())
+                mat = mat + as_homogeneous_matrix(transform.tensor())
             return mat
         return self.disp()
 
